@@ -174,6 +174,14 @@ CouponList<A>* CouponList<A>::newList(std::istream& is, const A& allocator) {
   if (!is.good())
     throw std::runtime_error("error reading from std::istream"); 
 
+  if (!compact) { // the whole array was read: the count must agree with its non-empty slots
+    uint32_t numCoupons = 0;
+    for (const uint32_t coupon: sketch->coupons_) { if (coupon != hll_constants::EMPTY) ++numCoupons; }
+    if (numCoupons != couponCount) {
+      throw std::invalid_argument("Coupon count in sketch image does not match the coupon array");
+    }
+  }
+
   return ptr.release();
 }
 
